@@ -32,19 +32,19 @@ def run_spec(V, label, c, next_, invs, emit=None, coverage=False):
         E.cleanup(wd)
 
 
-def consts(D, W, items, weights, maxlen, bound=2, dev=False):
+def consts(D, W, items, weights, maxlen, bound=2, dev=False, cellonce=False):
     return {'D': D, 'W': W, 'Items': '{' + ','.join(map(str, range(1, items + 1))) + '}', 'Weights': weights, 'MaxLen': maxlen, 'Bound': bound,
-            'QueryOtherHash': 'TRUE' if dev else 'FALSE'}
+            'QueryOtherHash': 'TRUE' if dev else 'FALSE', 'BatchCellOnce': 'TRUE' if cellonce else 'FALSE'}
 
 
 def main():
     tier, seed, replay = E.tier_seed()
     V = E.Verdict(PID, tier, seed)
     rng = random.Random(seed * 217645177 + 15)
-    V.coverage['rule'] = ('TLC: CMS.tla - every hash function [Items -> [rows -> locations]] (chosen at Init), every update stream of bounded length with weights 0..2: NeverUnder, '
+    V.coverage['rule'] = ('TLC: CMS.tla - every hash function [Items -> [rows -> locations]] (chosen at Init), every update stream of bounded length with weights 0..2 (single updates and BatchUpdate of lists up to length 3): NeverUnder, '
                           'NeverOverTotal, RowSumsAreTotal; the bounded counter for bounds 1..3 and every item stream of length <= 6 (ExactBelowBound, NeverOverCounts, AtMostBoundKeys), '
                           'each stream replayed on the real PrimitiveConstrainedCounter.  Real CountMinSketch objects (depth 1..8, width 1..2^15, numpy seeds, int and string items, '
-                          'add and batch_add) are driven by seeded streams; every update is recorded with the real '
+                          'add(x, w), batch_add([x], w) and batch_add of whole lists with repeated and colliding items) are driven by seeded streams; every update is recorded with the real '
                           'query() of every seen item and of an unseen one and the row sums, and validated by TraceCMS.tla against the ghosts truth/total.  non-trivial = distinct streams in which two items '
                           'collide in some row or a weight 0 occurs')
     V.assumptions += ['counts stay far below the int32 range of the sketch matrix']
@@ -54,6 +54,12 @@ def main():
     if r.violated != 'NeverUnder':
         raise E.MachineryError('deviation control QueryOtherHash did not violate NeverUnder')
     V.notes['deviation_control'] = 'QueryOtherHash=TRUE (query location differs from update location in row 1) violates NeverUnder'
+    r, _ = run_spec(Vt, 'deviation-batch', consts(2, 2, 2, '{1}', 2, cellonce=True), 'NextCMSBatch', CINV)
+    if r.violated not in ('NeverUnder', 'RowSumsAreTotal'):
+        raise E.MachineryError('deviation control BatchCellOnce did not violate NeverUnder / RowSumsAreTotal')
+    V.notes['deviation_control_batch'] = 'BatchCellOnce=TRUE (one increment per touched cell and call) violates ' + r.violated
+    for D, W, items, ml in ([(2, 2, 2, 2)] if tier == 'quick' else [(2, 2, 2, 3), (1, 3, 3, 2), (2, 3, 2, 2)]):
+        run_spec(V, f'CMS-batch/D{D}-W{W}-{items}items', consts(D, W, items, '{0,1,2}', ml), 'NextCMSBatch', CINV)
     grid = [(2, 2, 3, 4), (1, 3, 3, 4), (2, 3, 2, 4)] if tier == 'quick' else [(2, 2, 3, 5), (1, 3, 3, 5), (2, 3, 2, 5), (3, 2, 2, 4), (2, 3, 3, 3)]
     for D, W, items, ml in grid:
         res, _ = run_spec(V, f'CMS/D{D}-W{W}-{items}items', consts(D, W, items, '{0,1,2}', ml), 'NextCMS', CINV, coverage=(D, W) == (2, 2))
@@ -105,9 +111,13 @@ def main():
         items = [x for x in pool_items if (kind == 'mixed' and not isinstance(x, float)) or (kind == 'int' and isinstance(x, int)) or (kind == 'str' and isinstance(x, str))]
         items = rng.sample(items, min(len(items), rng.randrange(2, 7)))
         unseen = 424242 if kind != 'str' else 'never-added'
-        stream = [[rng.choice(items), rng.choice([0, 1, 1, 1, 2, 5, 100])] for _ in range(rng.randrange(5, 40))]
+        via = rng.choice(['add', 'batch1', 'batch', 'batch'])
+        if via == 'batch':      # whole lists per call: repeated items and (at small widths) distinct items sharing a cell
+            stream = [[[rng.choice(items) for _ in range(rng.choice([0, 1, 2, 3, 4, 8]))], rng.choice([0, 1, 1, 2, 3, 100])] for _ in range(rng.randrange(3, 20))]
+        else:
+            stream = [[rng.choice(items), rng.choice([0, 1, 1, 1, 2, 5, 100])] for _ in range(rng.randrange(5, 40))]
         jobs.append({'op': 'cms_stream', 'depth': depth, 'width': width, 'npseed': rng.randrange(2 ** 31), 'stream': stream, 'unseen': unseen,
-                     'via': rng.choice(['add', 'add', 'batch'])})
+                     'via': via})
     got = PC.pipe_eval(jobs, modules=['sketch_ops'])
     wd = E.workdir('c15t')
     try:
